@@ -176,8 +176,10 @@ def read_model_initial_conditions(
         # a layer that is not listed takes the last request given (the Depth
         # method likewise extends its last point to the bottom of the profile):
         # no compartment is left without an initial water content
+        # (the layers that have compartments: a layer added below the bottom
+        # of the profile has none)
         listed = [int(layer) for layer in depth_layer]
-        for layer in range(1, int(ParamStruct.Soil.nLayer) + 1):
+        for layer in sorted(int(layer) for layer in profile.Layer.unique()):
             if layer not in listed:
                 depth_layer.append(layer)
                 datapoints.append(datapoints[-1])
